@@ -489,8 +489,13 @@ func elemFor(t *rapid.T, st reflect.Type, name string) string {
 			continue
 		}
 		switch f.Type.Kind() {
-		case reflect.Int, reflect.Int64, reflect.Uint8, reflect.Float64:
+		case reflect.Int, reflect.Int64:
+			// (also values float64 cannot hold, and numbers an integer must refuse)
+			return rapid.SampledFrom([]string{"1", "0", "7", "7", "9007199254740993", "-9223372036854775807", "5.0", "1e2"}).Draw(t, "ev")
+		case reflect.Uint8, reflect.Float64:
 			return rapid.SampledFrom([]string{"1", "0", "7"}).Draw(t, "ev")
+		case reflect.Interface:
+			return rapid.SampledFrom([]string{"null", "1", `{"b":1,"a":2}`}).Draw(t, "ev")
 		case reflect.String:
 			return `"s"`
 		case reflect.Bool:
